@@ -35,7 +35,8 @@ def search(prop, scratch, seeds=(1, 2, 3), iters=400):
     shutil.copytree(os.path.join(VERIF, "native", "refcheck"), d)
     shutil.copytree(os.path.join(VERIF, "spec"), os.path.join(d, "spec"))
     p = os.path.join(d, "Cargo.toml")
-    open(p, "w").write(open(p).read().replace("@REPO@", REPO))
+    txt = open(p).read().replace("@REPO@", REPO)
+    open(p, "w").write(txt)
     lock = os.path.join(REPO, "Cargo.lock")
     if os.path.exists(lock):
         shutil.copy(lock, os.path.join(d, "Cargo.lock"))
